@@ -113,6 +113,13 @@ B)
 esac
 
 echo "--- step 3: submit task-three (accepted: REQUEST-STATUS 2.0), force checkpoint #2"
+SPID=
+if [ $PHASE = A ] && command -v strace >/dev/null 2>&1; then
+	# optional: watch the daemon's syscalls during checkpoint #2
+	strace -p $DPID -o "$T/strace.A" -e trace=openat,write,close,renameat,renameat2,unlinkat 2>/dev/null &
+	SPID=$!
+	sleep 0.5
+fi
 mktask "$T/t3.ics" task-three
 "$ECHSQ" add "$T/t3.ics"
 echo "daemon's in-memory schedule (GET /u/0/sched) before checkpoint #2:"
@@ -122,6 +129,11 @@ echo "echsq list -u 0 (triggers checkpoint #2, then serves the live file):"
 ls -la /var/spool/echse | sed 's/^/    /'
 N2=$(nev $Q); S2=$(stat -c %s $Q)
 echo "live queue file after checkpoint #2: $S2 bytes, $N2 VEVENTs"
+if [ -n "$SPID" ]; then
+	kill -INT $SPID 2>/dev/null; wait $SPID 2>/dev/null
+	echo "strace of echsd during checkpoint #2 (checkpoint file related calls only):"
+	awk '/openat\(.*"\.echsq_/ {on = 1} on {print "    " $0} /^renameat|^unlinkat/ {on = 0}' "$T/strace.A"
+fi
 
 echo "--- step 4: clean shutdown (SIGTERM), free the space again, restart the daemon"
 stop_daemon
